@@ -106,7 +106,14 @@ def _strings(prop, rec):
     return r(prop, rec)
 
 
+def _mvm(prop, rec):
+    from .props_e2 import replay_molfile_vs_mol
+
+    return replay_molfile_vs_mol(prop, rec)
+
+
 REPLAYERS = {
+    "molfile-vs-mol": _mvm,
     "string-of-molfile": _strings,
     "respelling": _strings,
     "c10-string": _c10,
